@@ -58,6 +58,15 @@ CLAIMS = {
                 'determinism = C03). 1-2 transactions per block.',
         'technique': 'bounded symbolic execution of rustc MIR with callee events + z3 obligations',
     },
+    'C08': {
+        'text': 'Symbolic execution of the MIR of SealedState::to_block, header and from_block composed on an arbitrary '
+                'sealed state: every one of the 11 UnsealedState fields and the stored proposer action of '
+                'from_block(to_block(s), s.stakes, db) equals that of s (trees extensionally, transaction / stake sets as '
+                'maps). One known finding: pending tips are lost when the block was sealed without an action.',
+        'design_ref': 'DESIGN.md §8 C08',
+        'note': COMMON_NOTE + ' Database::get_tree(root_hash(t)) = t (content-addressed store contract); 0-2 transactions, 2 stakes.',
+        'technique': 'bounded symbolic execution of rustc MIR + z3 field-equality obligations',
+    },
     'C13': {
         'text': 'Symbolic execution of the MIR of load_stake_info / stake_is_consistent, the lock test of check_tx_validity, '
                 'next_unsealed and StakeSet::unlock_old: a stake is registered iff its data decodes, its first output is SYM '
